@@ -8,8 +8,8 @@
    the hypotheses on token streams (row_wf, rows_ok, phys_line) are checked on every stream of every run by the harness. *)
 From Coq Require Import Lia.
 From Clikit Require Import Base.Prelude Base.Res Model.Conv Model.Markup Model.OutputM Model.Trace
-  Proofs.MarkupLemmas Proofs.OutputLemmas Proofs.TraceLemmas Proofs.LiteralLemmas Proofs.TraceRenderLemmas
-  Proofs.TraceSolutionLemmas Proofs.TraceEscLemmas Proofs.TraceFramesLemmas.
+  Proofs.StrLemmas Proofs.MarkupLemmas Proofs.OutputLemmas Proofs.TraceLemmas Proofs.LiteralLemmas Proofs.TraceRenderLemmas
+  Proofs.TraceSolutionLemmas Proofs.TraceEscLemmas Proofs.TraceFramesLemmas Proofs.TraceBytesLemmas Proofs.TracePiecesLemmas.
 
 (* ---- the code snippet numbers its lines consecutively and marks exactly the failing line ---- *)
 Theorem line_numbers_length : forall u lines mark, length (line_numbers u lines mark) = length lines.
@@ -553,3 +553,146 @@ Module Unreadable.
     = Ok (ex_head ++ [10;32;32;97;116;32;97;46;112;121;58;49;32;105;110;32;102;10]%N ++ ex_block1).
   Proof. exact ex_sol_unreadable_vm. Qed.
 End Unreadable.
+
+(* ================= the DECORATED report, as one whole-buffer statement (Proofs/TraceBytesLemmas.v) ================= *)
+(* full_report_on_clikit_outputs above characterises the bytes of an undecorated output; for a decorating one
+   writing_a_good_line_never_fails says "strip_sgr text = the shown pieces" line by line.  Here the whole buffer, both cases in
+   one: vis_of_out o w = w with the SGR sequences removed when o decorates, w itself otherwise.
+   part_of p s: p is a piece (infix) of s. *)
+(* what write_lines appends to the buffer shows, line after line, the texts of the (indented) pieces *)
+Theorem written_lines_show_their_pieces : forall sty (pls : list pline) o,
+  out_ok sty o -> Forall (fun p => pieces_ok sty (snd p)) pls -> (decorated o = true -> Forall (fun p => pieces_noesc (snd p)) pls) ->
+  exists o' w, write_lines o (map pline_w pls) = Ok o' /\ out_ok sty o' /\ o_on o' = o_on o /\ f_kind (o_fmt o') = f_kind (o_fmt o) /\
+    o_buf o' = o_buf o ++ w /\ vis_of_out o w = flat_map shown_line pls.
+Proof. exact write_lines_pieces_vis. Qed.
+Print Assumptions written_lines_show_their_pieces.
+(* THE FULL REPORT on an output clikit builds, decorated or not, for EVERY exception case with frames - when the output
+   decorates: whose texts hold no ESC (inputs_ne; needed: decorated_report_of_a_message_with_escape_codes_refuted below).
+   What render appends to the buffer shows (vis_of_out) exactly the report text: stack trace, blank line, class name, blank
+   line, message block, snippet; that is what the SAME output writes with formatting off (undecorate); it holds every piece
+   without line break - in particular every line - of the class name and of the message.  The pieces of the trace and snippet
+   lines are good pieces (pieces_ok: the texts of shown_line are what the undecorated formatter writes for them,
+   line_shows_its_texts) - the two conjuncts missing from full_report_on_clikit_outputs. *)
+Theorem full_report_visible_on_clikit_outputs : forall c o x, clikit_output o -> (0 <= o_indent o)%Z -> x_frames x <> [] ->
+  (decorated o = true -> inputs_ne c x) ->
+  let ind := (o_indent o + 2)%Z in
+  let sty := f_styles (o_fmt o) in
+  exists tr_p sn_p w,
+    render_trace c ind (x_frames x) = Ok (map pline_w tr_p) /\ Forall (fun p => pieces_ok sty (snd p)) tr_p /\
+    render_snippet c ind (last (x_frames x) dflt_frame) = Ok (map pline_w sn_p) /\ Forall (fun p => pieces_ok sty (snd p)) sn_p /\
+    render c false o x = Ok (o_buf o ++ w) /\
+    vis_of_out o w = flat_map shown_line tr_p
+                       ++ [NL] ++ spaces ind ++ shown (ind_text ind (x_name x)) ++ [NL]
+                       ++ [NL] ++ spaces ind ++ shown (ind_text ind (msg_text (x_msg x))) ++ [NL]
+                       ++ flat_map shown_line sn_p /\
+    render c false (undecorate o) x = Ok (o_buf o ++ vis_of_out o w) /\
+    (forall l, no_nl l -> part_of l (x_name x) -> part_of l (vis_of_out o w)) /\
+    (forall l, no_nl l -> part_of l (x_msg x) -> part_of l (vis_of_out o w)).
+Proof. exact full_report_visible_clikit. Qed.
+Print Assumptions full_report_visible_on_clikit_outputs.
+(* the lines of a text are pieces without line break of it: "every line of the message" *)
+Theorem every_line_is_a_piece : forall s l, In l (split_on NL s) -> no_nl l /\ part_of l s.
+Proof. exact line_is_part. Qed.
+Print Assumptions every_line_is_a_piece.
+(* the report text holds the class name and the message, whatever the trace and the snippet are *)
+Theorem report_text_holds_name_and_message : forall ind x tr_p sn_p,
+  (forall l, no_nl l -> part_of l (x_name x) -> part_of l (report_text ind x tr_p sn_p))
+  /\ (forall l, no_nl l -> part_of l (x_msg x) -> part_of l (report_text ind x tr_p sn_p)).
+Proof. exact report_has_name_and_message. Qed.
+Print Assumptions report_text_holds_name_and_message.
+(* simple mode: just the message *)
+Theorem simple_report_visible_on_clikit_outputs : forall c o x, clikit_output o -> (o_indent o <= 0)%Z ->
+  (decorated o = true -> no_esc (x_msg x)) ->
+  exists w, render c true o x = Ok (o_buf o ++ w) /\ vis_of_out o w = shown (x_msg x) ++ [NL].
+Proof. exact simple_report_visible_clikit. Qed.
+Print Assumptions simple_report_visible_on_clikit_outputs.
+Theorem partb_decides : forall p s, partb p s = true <-> part_of p s.
+Proof. exact partb_spec. Qed.
+Print Assumptions partb_decides.
+
+(* non-vacuity: the ANSI formatter over DefaultStyleSet, decorating, the verbose report of the demo exception (class name
+   B</error>, message <b>x\ - markup-like texts, no ESC - two frames): the hypotheses hold, the bytes hold escape codes, and
+   with them removed they are the bytes of the undecorated run *)
+Definition ansi_out : outp := {| o_indent := 0; o_on := true; o_sec := false; o_fmt := default_formatter (FAnsi true); o_buf := [] |}.
+Example full_report_visible_instance :
+  clikit_output ansi_out /\ decorated ansi_out = true /\
+  inputs_ne (RenderExamples.demo_cfg true) (RenderExamples.demo_x [RenderExamples.demo_frame; RenderExamples.demo_frame]) /\
+  match render (RenderExamples.demo_cfg true) false ansi_out (RenderExamples.demo_x [RenderExamples.demo_frame; RenderExamples.demo_frame]),
+        render (RenderExamples.demo_cfg true) false (undecorate ansi_out) (RenderExamples.demo_x [RenderExamples.demo_frame; RenderExamples.demo_frame]) with
+  | Ok b, Ok p => str_eqb (strip_sgr b) p && Nat.ltb (length p) (length b) && partb RenderExamples.demo_name p && partb RenderExamples.demo_msg p
+  | _, _ => false end = true.
+Proof.
+  split; [split; [reflexivity|apply default_formatters_are_clikit; discriminate]|]. split; [reflexivity|].
+  split; [exact RenderExamples.ex_inputs_ne|vm_compute; reflexivity].
+Qed.
+(* REFUTED without "no ESC in the texts" - for the reading "the decorated bytes, SGR sequences removed, hold the message": the
+   exception whose message is  ESC[31m red ESC[0m  on the decorating output esc_out (above): the report is produced, its bytes
+   hold the message as it is, and so do the bytes of the undecorated run - but removing the SGR sequences removes the message's
+   own: what is left holds "red" and not the message.  Observed alike on the Python code (ExceptionTrace(Boom(that message))
+   .render on a BufferedIO with AnsiFormatter(forced=True): the message is in the output, not in the output with
+   ESC[...m removed).  A reading, not a defect: "style markup aside" cannot tell the renderer's escape codes from the message's. *)
+Definition esc_x : exn_case := {| x_name := [66%N]; x_msg := esc_text; x_frames := [RenderExamples.demo_frame; RenderExamples.demo_frame] |}.
+Theorem decorated_report_of_a_message_with_escape_codes_refuted :
+  exists c o x, clikit_output o /\ decorated o = true /\ (0 <= o_indent o)%Z /\ x_frames x <> [] /\
+    exists bytes plain, render c false o x = Ok bytes /\ render c false (undecorate o) x = Ok plain /\
+      part_of (x_msg x) bytes /\ part_of (x_msg x) plain /\ ~ part_of (x_msg x) (strip_sgr bytes) /\ strip_sgr bytes <> plain.
+Proof.
+  exists (RenderExamples.demo_cfg true), esc_out, esc_x. split; [exact (proj1 esc_out_qualifies)|]. split; [reflexivity|].
+  split; [cbn; lia|]. split; [discriminate|].
+  destruct (render (RenderExamples.demo_cfg true) false esc_out esc_x) as [b|e] eqn:Eb; [|vm_compute in Eb; discriminate].
+  destruct (render (RenderExamples.demo_cfg true) false (undecorate esc_out) esc_x) as [p|e] eqn:Ep; [|vm_compute in Ep; discriminate].
+  exists b, p. split; [reflexivity|]. split; [reflexivity|].
+  assert (partb esc_text b = true /\ partb esc_text p = true /\ partb esc_text (strip_sgr b) = false /\ str_eqb (strip_sgr b) p = false) as (H1 & H2 & H3 & H4).
+  { vm_compute in Eb. vm_compute in Ep. injection Eb as <-. injection Ep as <-. vm_compute. repeat split; reflexivity. }
+  split; [now apply partb_spec|]. split; [now apply partb_spec|]. split.
+  - intros H. apply partb_spec in H. change (x_msg esc_x) with esc_text in H. congruence.
+  - intros E. rewrite E, str_eqb_refl in H4. discriminate.
+Qed.
+Print Assumptions decorated_report_of_a_message_with_escape_codes_refuted.
+
+(* ================= no piece left existential (Proofs/TracePiecesLemmas.v) ================= *)
+(* The byte theorems above say "there are pieces tr_p, sn_p with render_trace ... = Ok (map pline_w tr_p)".  The pieces are
+   functions of the inputs: trace_plines c ind fs (the header, per collection the fold line, per frame the location line and the
+   line(s) under it - the frame's own line highlighted or plain, or at debug verbosity its numbered snippet) and snippet_plines
+   c ind f (blank line, "at file:line in function", the numbered highlighted lines).  The lines written ARE their strings: *)
+Theorem trace_lines_are_their_pieces : forall c ind fs, render_trace c ind fs = Ok (map pline_w (trace_plines c ind fs)).
+Proof. exact trace_plines_w. Qed.
+Print Assumptions trace_lines_are_their_pieces.
+Theorem snippet_lines_are_their_pieces : forall c ind f, render_snippet c ind f = Ok (map pline_w (snippet_plines c ind f)).
+Proof. exact snippet_plines_w. Qed.
+Print Assumptions snippet_lines_are_their_pieces.
+(* they are good pieces in every style table that knows "b" (the inline styles resolve everywhere) *)
+Theorem trace_and_snippet_pieces_are_good : forall sty c ind fs f, resolvable sty st_b ->
+  Forall (fun p : pline => pieces_ok sty (snd p)) (trace_plines c ind fs) /\
+  Forall (fun p : pline => pieces_ok sty (snd p)) (snippet_plines c ind f).
+Proof. intros sty c ind fs f Hb. split; [apply (trace_plines_ok sty Hb)|apply (snippet_plines_ok sty Hb)]. Qed.
+Print Assumptions trace_and_snippet_pieces_are_good.
+(* the full report on an output clikit builds, decorated or not: what is seen of the bytes appended is the report text of these
+   pieces - a function of the exception case, the configuration and the indentation *)
+Theorem full_report_explicit_on_clikit_outputs : forall c o x, clikit_output o -> (0 <= o_indent o)%Z -> x_frames x <> [] ->
+  (decorated o = true -> inputs_ne c x) ->
+  let ind := (o_indent o + 2)%Z in
+  exists w, render c false o x = Ok (o_buf o ++ w) /\
+    vis_of_out o w = report_text ind x (trace_plines c ind (x_frames x)) (snippet_plines c ind (last (x_frames x) dflt_frame)).
+Proof. exact full_report_explicit_clikit. Qed.
+Print Assumptions full_report_explicit_on_clikit_outputs.
+(* non-vacuity: the verbose report of the demo exception with two frames: the stack trace has lines, and the undecorated bytes
+   are the report text of the explicit pieces (computed on both sides) *)
+Example explicit_pieces_instance :
+  let c := RenderExamples.demo_cfg true in
+  let x := RenderExamples.demo_x [RenderExamples.demo_frame; RenderExamples.demo_frame] in
+  (0 < length (trace_plines c 2 (x_frames x)))%nat /\ (0 < length (snippet_plines c 2 RenderExamples.demo_frame))%nat /\
+  match render c false (undecorate ansi_out) x with
+  | Ok b => str_eqb b (report_text 2 x (trace_plines c 2 (x_frames x)) (snippet_plines c 2 RenderExamples.demo_frame))
+  | Err _ => false end = true.
+Proof. vm_compute. repeat split; try reflexivity; lia. Qed.
+(* simple mode on the decorating output: the hypotheses of simple_report_visible_on_clikit_outputs, and the bytes computed *)
+Example simple_report_visible_instance :
+  clikit_output ansi_out /\ (o_indent ansi_out <= 0)%Z /\ no_esc RenderExamples.demo_msg /\
+  match render (RenderExamples.demo_cfg false) true ansi_out (RenderExamples.demo_x [RenderExamples.demo_frame]) with
+  | Ok b => str_eqb (strip_sgr b) (shown RenderExamples.demo_msg ++ [NL]) && Nat.ltb (length (shown RenderExamples.demo_msg ++ [NL])) (length b)
+  | Err _ => false end = true.
+Proof.
+  split; [split; [reflexivity|apply default_formatters_are_clikit; discriminate]|]. split; [cbn; lia|].
+  split; [repeat constructor; discriminate|vm_compute; reflexivity].
+Qed.
